@@ -5,7 +5,7 @@ CONSTANTS
   RPCs <- One
   CScript <- G_err
   SScript <- GS_err
-  Faults <- AllFaults
+  Faults <- AllFaults4
   MaxFaults = 1
   Stepped = TRUE
   Dir = "fwd"
